@@ -6,7 +6,7 @@ PROP = dict(
     ],
     bounds=("first byte and length constant per harness, extension-field type/length words constant, everything else symbolic (header, field contents, MAC bytes, "
             "synchronisation state, clock readings). NTPv3/v4 plain: 48 B and 48+{4,20,24} B MAC, response kinds time / DENY (deny list, allow list, NTS required). "
-            "NTPv4 templates up to 120 B: unique id 36 B (alone, +20 B MAC, twice), unknown+unique id, cookie+placeholder outside NTS, unique id 16 B + 12 B MAC "
+            "NTPv4 templates up to 120 B: unique id 36 B (alone, +20 B MAC, twice), unknown+unique id, cookie + unknown field outside NTS, unique id 16 B + 12 B MAC "
             "(answer re-encoded to the RFC 7822 minimum fits exactly) and + 9 B MAC (answer would be 3 B longer: nothing is sent). NTPv5 templates 76..116 B: draft "
             "identification alone, + unique id 36 B, + reference-id request 40 B, + padding field 30 B, + unknown field 17 B (non-multiple-of-4 lengths). "
             "Undecryptable NTS field (80 B, concrete): c15_nts_client_nak. Policy concrete per harness (one response kind each)."),
@@ -41,7 +41,7 @@ PROP = dict(
         H(NS, "c16", "c16_wire_v4_uid36_mac20_time", "NTPv4 + unique id + 20 B MAC", tier="thorough"),
         H(NS, "c16", "c16_wire_v4_uid36x2_time", "NTPv4 + two unique ids (120 B)", tier="thorough"),
         H(NS, "c16", "c16_wire_v4_unknown_uid_time", "NTPv4 + unknown field + unique id", tier="thorough"),
-        H(NS, "c16", "c16_wire_v4_cookie_ph_time", "NTPv4 + cookie + placeholder outside NTS", tier="thorough"),
+        H(NS, "c16", "c16_wire_v4_cookie_ph_time", "NTPv4 + cookie + unknown field outside NTS", tier="thorough"),
         H(NS, "c16", "c16_wire_v5_deny", "NTPv5 DENY", tier="thorough"),
         H(NS, "c16", "c16_wire_v5_uid_time", "NTPv5 + unique id", tier="thorough"),
         H(NS, "c16", "c16_wire_v5_uid_deny", "NTPv5 + unique id, DENY", tier="thorough"),
